@@ -345,6 +345,9 @@ func newModel(c Case, v variant) *model {
 	m.attrs.set(vk.ToAttrs(second), c.Limits.ValueLen, &m.st)
 	for _, op := range c.Ops {
 		m.apply(op, v)
+		if again, ok := againOp(op); ok {
+			m.apply(again, v)
+		}
 	}
 	if !m.ended {
 		// the runner ends the span after the last call.
@@ -373,4 +376,44 @@ func variants(c Case) []variant {
 		}
 	}
 	return out
+}
+
+// lentOp: the op passes the caller's KVs slice to the library.
+func lentOp(op Op) bool { return op.Op == "attrs" || op.Op == "event" || op.Op == "error" }
+
+// againOp is the second call the primary span receives with the same slice
+// object: as far as the model is concerned just another call with the case's
+// original key-values.
+func againOp(op Op) (Op, bool) {
+	if !lentOp(op) {
+		return Op{}, false
+	}
+	switch op.Again {
+	case "attrs":
+		return Op{Op: "attrs", KVs: op.KVs}, true
+	case "event":
+		return Op{Op: "event", Text: "again", KVs: op.KVs}, true
+	}
+	return Op{}, false
+}
+
+// sibOp is the sibling span's corresponding call: the same call with only the
+// shared slice.
+func sibOp(op Op) Op {
+	op.HasKV2, op.KVs2, op.Share, op.Again = false, nil, 0, ""
+	return op
+}
+
+// sibCase is what the sibling span was asked to do: a fresh span under the
+// sibling limits that receives, in program order, every shared op (also the
+// ones the primary span ignores because it has ended) and is ended by the
+// runner.
+func sibCase(c Case) Case {
+	s := Case{Limits: c.Sib, Name: "sibling", Kind: 1}
+	for _, op := range c.Ops {
+		if lentOp(op) && op.Share != 0 {
+			s.Ops = append(s.Ops, sibOp(op))
+		}
+	}
+	return s
 }
